@@ -36,6 +36,7 @@ EXPLANATION = (
     "callee that deactivates its parameter) up to a public API. An in-place rewrite of an already emitted command's operand must lie "
     "under a test reading that same operand against the relocated address. Controller-side allocation guards as in C13.G and the occupied-slot test that holds back an arriving pair while its virtual id is still allocated (as in C12.B)."
     ' C09.I: an explicit virtual id given to a new handle is provably unused. C09.Z: no truthiness test on an int-typed value (qubit id 0, physical address 0).'
+    ' C09.M executes get_new_qubit_address abstractly for seven sets of handle ids, and again after a live handle was renamed to the id just handed out (what NV relocation does).'
 )
 LEVEL_TEXT = (
     "Static analysis, partial: the structural agreement of SDK-side handle state with emitted qalloc/qfree at every emission and "
